@@ -10,6 +10,7 @@ import (
 	"path/filepath"
 	"strconv"
 	"strings"
+	"sync"
 	"sync/atomic"
 	"time"
 
@@ -30,6 +31,7 @@ import (
 var T0 = time.Date(2023, 1, 1, 0, 0, 0, 0, time.UTC)
 
 var dbSeq atomic.Int64
+var schemaMu sync.Mutex
 
 type recoverer interface {
 	RevertDispatched(ctx context.Context) error
@@ -70,7 +72,11 @@ func newRepoUnderTest(impl string, scratch string) (*repoUnderTest, error) {
 		if err != nil {
 			return nil, err
 		}
-		if err := client.Schema.Create(context.Background()); err != nil {
+		// ent's migration mutates package-level table descriptions: not safe to run concurrently.
+		schemaMu.Lock()
+		err = client.Schema.Create(context.Background())
+		schemaMu.Unlock()
+		if err != nil {
 			client.Close()
 			return nil, err
 		}
@@ -411,12 +417,17 @@ func sameKV(a, b []inmemory.KeyValue) bool {
 // generators
 
 type repoGen struct {
-	r       *rng.R
-	profile string
-	now     time.Time
-	n       int // ops emitted
-	adds    int
-	maxLive int
+	// avoid lists the triggers of known findings that the main search must stay away from.
+	avoid map[string]bool
+	// adversarial widens the string alphabet (wildcards, quotes, dots, unicode).
+	adversarial bool
+	findHeavy   bool
+	r           *rng.R
+	profile     string
+	now         time.Time
+	n           int // ops emitted
+	adds        int
+	maxLive     int
 }
 
 var (
@@ -441,6 +452,49 @@ func (g *repoGen) schedTime() time.Time {
 	return t
 }
 
+var (
+	advKeys = []string{"k", "a", "a.b", "a b", "a\"b", "a'b", "[0]", "é", "K", "$", "a%", "a\\b", "a[0]"}
+	advVals = []string{"v", "abc", "Abc", "ABC", "ab", "", "bc", "x y", "a%", "a_c", "%", "_", "a\\c", "a'c", "a\"c", "é", "éa", "aé", "\n"}
+)
+
+func (g *repoGen) keys() []string {
+	ks := mapKeys
+	if g.adversarial {
+		ks = advKeys
+	}
+	if g.avoid["json-path-key"] {
+		var out []string
+		for _, k := range ks {
+			if !strings.ContainsAny(k, "\"'\\") && !strings.HasPrefix(k, "[") {
+				out = append(out, k)
+			}
+		}
+		ks = out
+	}
+	return ks
+}
+
+func (g *repoGen) vals() []string {
+	vs := mapVals
+	if g.adversarial {
+		vs = advVals
+	}
+	if g.avoid["like-case"] || g.avoid["like-wildcard"] {
+		var out []string
+		for _, v := range vs {
+			if g.avoid["like-case"] && v != strings.ToLower(v) {
+				continue
+			}
+			if g.avoid["like-wildcard"] && strings.ContainsAny(v, "%_\\") {
+				continue
+			}
+			out = append(out, v)
+		}
+		vs = out
+	}
+	return vs
+}
+
 func (g *repoGen) smallMap() map[string]string {
 	switch g.r.Intn(6) {
 	case 0:
@@ -450,7 +504,7 @@ func (g *repoGen) smallMap() map[string]string {
 	}
 	m := map[string]string{}
 	for i, n := 0, 1+g.r.Intn(2); i < n; i++ {
-		m[rng.Pick(g.r, mapKeys)] = rng.Pick(g.r, mapVals)
+		m[rng.Pick(g.r, g.keys())] = rng.Pick(g.r, g.vals())
 	}
 	return m
 }
@@ -544,6 +598,9 @@ func (g *repoGen) next(dump []def.Task, issued []string, impl string) string {
 		}
 	}
 	w := r.Intn(100)
+	if g.findHeavy && len(issued) >= 3 && r.Chance(2, 3) {
+		w = 99
+	}
 	if len(issued) == 0 && w >= 10 {
 		w = 0
 	}
@@ -614,8 +671,8 @@ func (g *repoGen) query(dump []def.Task) def.TaskQueryParam {
 	mm := func(m map[string]string) option.Option[[]def.MapMatcher] {
 		var out []def.MapMatcher
 		for i, n := 0, r.Intn(3); i < n; i++ {
-			k := rng.Pick(r, mapKeys)
-			v := rng.Pick(r, mapVals)
+			k := rng.Pick(r, g.keys())
+			v := rng.Pick(r, g.vals())
 			if mv, ok := m[k]; ok && r.Chance(2, 3) {
 				v = mv
 				if len(v) > 1 && r.Chance(1, 2) {
@@ -695,11 +752,15 @@ func cmdRepo(args []string) {
 	impl := fs.String("impl", "mem", "mem | ent | entfile")
 	profile := fs.String("profile", "lifecycle", "lifecycle | recover | snapshot")
 	maxLive := fs.Int("maxlive", 4, "bound on live tasks")
+	avoid := fs.String("avoid", "", "comma-separated triggers of known findings to stay away from")
+	adversarial := fs.Bool("adversarial", false, "adversarial string alphabet for map keys/values")
+	findHeavy := fs.Bool("findheavy", false, "mostly Find operations")
 	fs.Parse(args)
 	os.MkdirAll(c.scratch, 0o755)
 
 	rep := &Report{Family: "repo", Seed: c.seed, Dist: map[string]int{},
-		Config: map[string]string{"impl": *impl, "profile": *profile, "len": strconv.Itoa(c.length)}}
+		Config: map[string]string{"impl": *impl, "profile": *profile, "len": strconv.Itoa(c.length),
+			"avoid": *avoid, "adversarial": strconv.FormatBool(*adversarial)}}
 	ex := func(h sim.History) []string { return (&repoExec{scratch: c.scratch}).Exec(h) }
 
 	var hists []sim.History
@@ -713,7 +774,13 @@ func cmdRepo(args []string) {
 		hists, traces = []sim.History{h}, [][]string{ex(h)}
 	} else {
 		hists, traces = parallelGen(&c, c.n, func(i int, r *rng.R) (sim.History, []string) {
-			g := &repoGen{r: r, profile: *profile, now: T0, maxLive: *maxLive}
+			g := &repoGen{r: r, profile: *profile, now: T0, maxLive: *maxLive, adversarial: *adversarial,
+				avoid: map[string]bool{}, findHeavy: *findHeavy}
+			for _, a := range strings.Split(*avoid, ",") {
+				if a != "" {
+					g.avoid[a] = true
+				}
+			}
 			e := &repoExec{scratch: c.scratch}
 			h := sim.History{Header: "new " + *impl}
 			count := 0
